@@ -223,7 +223,7 @@ var properties = map[string]*propDef{
 		Level: "exploration",
 		Rule:  "(engine under construction)",
 		Units: []unit{{
-			Name: "freighter-stream", Module: "freighter/go", Package: "./test", Passes: allPasses, Engines: []string{"c14"},
+			Name: "freighter-stream", Module: "freighter/go", Package: "./test", Passes: allPasses, Engines: []string{"c14", "c14-mock", "c14-ws", "c14-grpc"}, ExtraRoots: []string{"./mock", "./http", "./grpc"},
 			QuickBudget: 25 * time.Second, QuickWorkers: 8, ThoroughBudget: 12 * time.Minute, ThoroughWorkers: 16,
 		}},
 	},
